@@ -583,6 +583,39 @@ def rule_r9(rep, program: Program):
     return r
 
 
+def rule_r11(rep, program: Program):
+    r = rep.rule("R11", "leaves: a new leaf is (state, state, state.mom, weight(h), depth 0); the initial leaf carries the weight of the start state's own energy, a built leaf that of the new state", floor=3)
+    k = program.cls("DynamicIntegrationTransition")
+    f = k.methods["_new_leave"]
+    rets = [n for n in ast.walk(f.node) if isinstance(n, ast.Return)]
+    call = rets[-1].value
+    kw = {x.arg: norm(x.value) for x in call.keywords} if isinstance(call, ast.Call) else {}
+    sp, hp, ap = f.params[1], f.params[2], f.params[3]
+    want = {"negative": sp, "positive": sp, "weight": f"self._weight_function({hp}, {ap})", "depth": "0"}
+    r.inst({"_new_leave": kw})
+    for a, w in want.items():
+        if kw.get(a) != w:
+            r.violate(PROP, f"_new_leave:{a}={kw.get(a)}", f"a leaf's `{a}` is `{kw.get(a)}` instead of `{w}`", node=call, file=f.file)
+    if kw.get("sum_mom") not in (f"np.asarray({sp}.mom)", f"{sp}.mom", f"np.array({sp}.mom)"):
+        r.violate(PROP, f"_new_leave:sum_mom={kw.get('sum_mom')}", "a leaf's momentum sum is not the momentum of its state", node=call, file=f.file)
+    sm = k.methods["sample"]
+    init = [n for n in ast.walk(sm.node) if isinstance(n, ast.Assign) and isinstance(n.value, ast.Call) and norm(n.value.func) == "self._new_leave"]
+    r.inst({"initial leaf": norm(init[0].value) if init else None})
+    if not init or [norm(a) for a in init[0].value.args] != [sm.params[1], "aux_vars['h_init']", "aux_vars"]:
+        r.violate(PROP, "sample:initial-leaf", "the initial tree is not the leaf of the start state weighted with its own energy h_init", node=sm.node, file=sm.file)
+    bt = k.methods["_build_tree"]
+    leaf = [n for n in ast.walk(bt.node) if isinstance(n, ast.Assign) and isinstance(n.value, ast.Call) and norm(n.value.func) == "self._new_leave"]
+    r.inst({"built leaf": norm(leaf[0].value) if leaf else None})
+    ok = bool(leaf)
+    if ok:
+        a = [norm(x) for x in leaf[0].value.args]
+        hdef = [n for n in ast.walk(bt.node) if isinstance(n, ast.Assign) and norm(n.targets[0]) == a[1] and isinstance(n.value, ast.Call) and call_name(n.value).endswith("system.h")]
+        ok = len(a) == 3 and hdef and norm(hdef[0].value.args[0]) == a[0] and a[2] == "aux_vars"
+    if not ok:
+        r.violate(PROP, "_build_tree:leaf", "a newly integrated state is not added as a leaf weighted with its own energy", node=bt.node, file=bt.file)
+    return r
+
+
 def run(rep, program: Program, tier: str) -> None:
     rep.explanation = (
         "Typestate exploration of the Metropolis step over its CFG with abstract state objects; "
@@ -601,3 +634,4 @@ def run(rep, program: Program, tier: str) -> None:
     rule_r6(rep, program)
     rule_r7(rep, program)
     rule_r9(rep, program)
+    rule_r11(rep, program)
